@@ -788,6 +788,11 @@ pub fn check_plan(ctx: &mut Ctx, inst: &Instance, out: &DispatchOutcome, nets: &
                     }
                 }
                 if a.link == b.link {
+                    if !a.arrive.is_finite() || !b.arrive.is_finite() {
+                        // a window without an entry time: the plan is incomplete, which is C05's verdict, not an order question
+                        ctx.count("obs.follower_pairs_skipped_untimed_window");
+                        continue;
+                    }
                     // same direction over the same link: headway and order
                     let (lead, foll) = if a.arrive <= b.arrive { (a, b) } else { (b, a) };
                     // consecutive users only (no third train, no opposing movement in between)
@@ -1017,6 +1022,20 @@ pub fn run_dispatch_case(ctx: &mut Ctx, rng: &mut Rng, _t: bool) {
     ctx.count("obs.dispatch_runs");
     let out = run_with_hook(&pr.inst.links, &sims, pr.nets.clone());
     count_sites(ctx, &out);
+    if std::env::var("VERIF_DEBUG_PLAN").is_ok() {
+        if let Ok(Ok(plan)) = &out.result {
+            for (k, r) in plan.iter().enumerate() {
+                eprintln!("PLAN train {} : {:?}", k + 1, r.iter().map(|x| (x.link_idx.idx(), (x.time.value * 10.0).round() / 10.0)).collect::<Vec<_>>());
+            }
+        }
+        if let Some(d) = out.log.final_disps.as_ref().and_then(|d| d.as_array()) {
+            for (t, dd) in d.iter().enumerate().skip(1) {
+                let path = dd.get("disp_path").and_then(|p| p.as_array()).cloned().unwrap_or_default();
+                let tail: Vec<String> = path.iter().rev().take(8).rev().map(|n| format!("{}:{}@{}", n["link_event"]["est_type"].as_str().unwrap_or("?"), n["link_event"]["link_idx"], n["time_pass"])).collect();
+                eprintln!("DISP train {t}: free {} fixed {} len {} tail {:?}", dd["disp_node_idx_free"], dd["disp_node_idx_fixed"], path.len(), tail);
+            }
+        }
+    }
     let stats = check_plan(ctx, &pr.inst, &out, &pr.nets, &pr.info);
     let opposing = pr.inst.trains.iter().any(|t| t.reverse) && pr.inst.trains.iter().any(|t| !t.reverse);
     let nt = match ctx.prop {
